@@ -212,6 +212,15 @@ def check(ctx: Ctx):
     ok = ok and len(r) == 1 and norm(r[0].value) == "ComputationPseudoTree(roots)"
     ctx.check(ok, "R-FOREST", "a DFS tree is built from the remaining variables until none is left; each tree's variables are removed; all roots kept", build, wl[0] if wl else build.node,
               "disconnected graphs yield a forest: every variable must end up in exactly one tree")
+    # every root comes out of the DFS, and building nodes are only created there (no side path that skips neighbour / relation wiring)
+    apps = [c for c in ast.walk(build.node) if isinstance(c, ast.Call) and norm(c.func) in ("roots.append", "roots.extend", "roots.insert")]
+    okr = len(apps) == 1 and norm(apps[0].func) == "roots.append" and norm(apps[0].args[0]) == "root" and wl and any(n is apps[0] for n in ast.walk(wl[0])) and \
+        not [s for s in ast.walk(build.node) if isinstance(s, ast.Assign) and norm(s.targets[0]) == "roots" and not (isinstance(s.value, ast.List) and not s.value.elts)]
+    ctx.check(okr, "R-FOREST", "roots are exactly the results of _generate_dfs_tree", build, (apps or [build.node])[0],
+              "a root built any other way has no relations / neighbours: its constraints (e.g. the unary constraints of an isolated variable) are lost")
+    makers = [f for f in repo.all_functions(m) for c in ast.walk(f.node) if isinstance(c, ast.Call) and call_name(c) == "_BuildingNode"]
+    ctx.check({f.qualname for f in makers} == {"_generate_dfs_tree"}, "R-FOREST", "building nodes are only created by _generate_dfs_tree", makers[0] if makers else build, (makers[0] if makers else build).node,
+              f"found in {sorted({f.qualname for f in makers})}")
     vt = repo.func(PT, "_visit_tree")
     t = norm(vt.node)
     ctx.check("stack = [root]" in t and "yield n" in t and "stack.extend(reversed(n.children))" in t, "R-FOREST", "_visit_tree yields every node reachable through children links", vt, vt.node, "")
@@ -267,6 +276,7 @@ def check(ctx: Ctx):
 
 _P = "pydcop/computations_graph/pseudotree.py"
 VARIANTS = [
+    ("isolated_fast_path", _P, "    roots = []\n    while len(variables) != 0:", "    roots = []\n    for v in list(variables):\n        if not any(v in c.dimensions and len(c.dimensions) > 1 for c in constraints):\n            roots.append(_BuildingNode(v))\n            variables.remove(v)\n    while len(variables) != 0:", "break", "R-FOREST"),
     ("neighbors_not_deduplicated", _P, "            for n in nodes:\n                if n.variable in dim_vars and n not in node_neighbors:\n                    node_neighbors.append(n)", "            node_neighbors.extend(n for n in nodes if n.variable in dim_vars)", "break", "R-NEIGHBORS"),
     ("node_creation_dedented", _P, "            for n in _visit_tree(root):\n                _nodes[n.name] = PseudoTreeNode(n.variable, n.relations, links[n.name])", "        for n in _visit_tree(root):\n            _nodes[n.name] = PseudoTreeNode(n.variable, n.relations, links[n.name])", "break", "R-FOREST"),
     ("recursive_propagate", _P, "        stack = [(self, token, iter(self._neighbors))]\n        while stack:\n            node, node_token, neighbors = stack[-1]\n            for n in neighbors:\n                if n not in node._visited:\n                    if n not in node.pseudo_parents:\n                        node.children.append(n)\n                    n_token = n._receive_token(node, node_token)\n                    if n_token is not None:\n                        stack.append((n, n_token, iter(n._neighbors)))\n                        break\n            else:\n                stack.pop()",
